@@ -15,7 +15,7 @@ RULE = ('Inputs: small generated documents of every selectable map (4010 -> 997,
         'whenever every copied value fits the acknowledgement\'s own element definitions. non-trivial = distinct acknowledgements containing >=1 AK4/IK4 with an echoed value.')
 ASSUMPTIONS = ['(d) acceptance is required only when the values copied from the input (control numbers, ids, echoed data) fit the 997/999 element definitions; otherwise only "no exception, no map-not-found"',
                'inputs for which validation itself does not complete are C07\'s business']
-REQUIRED_COUNTERS = ['inputs:interchanges-of-both-versions', 'inputs:set-with-many-set-level-codes', 'inputs:ta1-requested-by-several-interchanges', 'inputs:fa-group-first', 'cli:invocations', 'cli:acks-compared', 'inputs:envelope-soup', 'acks', 'acks:997', 'acks:999', 'acks-with-echo', 'echo-with-ack-delimiter', 'reread', 'revalidated', 'revalidated:accepted']
+REQUIRED_COUNTERS = ['inputs:last-interchange-of-unknown-version', 'inputs:interchanges-of-both-versions', 'inputs:set-with-many-set-level-codes', 'inputs:ta1-requested-by-several-interchanges', 'inputs:fa-group-first', 'cli:invocations', 'cli:acks-compared', 'inputs:envelope-soup', 'acks', 'acks:997', 'acks:999', 'acks-with-echo', 'echo-with-ack-delimiter', 'reread', 'revalidated', 'revalidated:accepted']
 MIN_CASES = {'quick': 500, 'thorough': 15000}
 WATCHDOG_S = {'quick': 1200, 'thorough': 7200}
 
@@ -389,6 +389,16 @@ def run(ctx):
                     r.vals[13] = '1'
             text = doc.text(terms[0], terms[1], terms[2], '\n' if terms[0] != '\n' else '')
             ctx.count('inputs:ta1-requested-by-several-interchanges')
+        if fam in ('hostile', 'faults') and k % 3 == 0:
+            # a last interchange without any group whose ISA12 names a version the package has no 997/999 for (some are listed in the map index for
+            # other transactions): whatever the acknowledgement copies from the LAST header must leave it readable
+            ver = rng.choice(['00400', '00402', '00301', '00200', '0050 ', 'X0401', '     '])
+            ctl = '%09d' % rng.randint(1, 999999998)
+            isa_ = ['ISA', '00', ' ' * 10, '00', ' ' * 10, 'ZZ', 'SENDERID'.ljust(15), 'ZZ', 'RECEIVERID'.ljust(15), '240102', '1230', 'U', ver, ctl, '0', 'P', terms[2]]
+            brk_ = '\n' if terms[0] != '\n' else ''
+            text = text + terms[1].join(isa_) + terms[0] + brk_ + terms[1].join(['IEA', '0', ctl]) + terms[0] + brk_
+            kinds.append('last-interchange-of-unknown-version:' + ver)
+            ctx.count('inputs:last-interchange-of-unknown-version')
         if fam == 'mixed-versions':
             # interchanges of both versions in one file, either order (faults in one of them half of the time): the one acknowledgement written
             # must be of ONE kind throughout (ISA12, GS08, 997/999) so that it can be read back
